@@ -56,6 +56,7 @@ const (
 	tMachI  = "MachInt"
 	tBig    = "BigInt"   // *big.Int value: unbounded, no overflow panic
 	tBigNew = "BigFresh" // `new(big.Int)`: a fresh receiver / result slot
+	tNat32  = "Nat32"    // an unsigned value known to be below 2^32 (uint32 / uint16)
 	tUnsupp = ""
 )
 
@@ -85,6 +86,9 @@ func leanTypeName(t string) string {
 	if t == tMachI || t == tConst || t == tBig {
 		return "Int"
 	}
+	if t == tNat32 {
+		return "Nat"
+	}
 	return t
 }
 
@@ -106,6 +110,12 @@ type arithTr struct {
 	cur   *arithFn
 	tmp   int
 	lines []string
+	// loop-body mode (translateLoopBody): the body of a `for _, x := range xs` loop becomes a
+	// function of the loop variable; `continue` yields none, `acc = append(acc, e)` yields some e.
+	loopAcc    string            // name of the accumulator slice, "" outside loop-body mode
+	opaque     map[string]string // receiver-method calls treated as inputs: method -> lean type
+	opaqueUsed []string
+	consts     map[string]string // package-level constants (Int) by identifier
 }
 
 type scope struct {
@@ -169,6 +179,9 @@ func (t *arithTr) expr(e ast.Expr, sc *scope, pre *[]string, noHoist bool) (stri
 				t.fail(x, "error value used as an expression")
 			}
 			return leanIdent(x.Name), ty
+		}
+		if v, ok := t.consts[x.Name]; ok {
+			return "(" + v + " : Int)", tInt
 		}
 		t.fail(x, "unknown identifier")
 	case *ast.BasicLit:
@@ -358,6 +371,9 @@ func (t *arithTr) expr(e ast.Expr, sc *scope, pre *[]string, noHoist bool) (stri
 			if ty == tConst {
 				return "(" + s + " : Int)", tMachI
 			}
+			if ty == tNat32 && fn == "int64" {
+				return "((" + s + " : Nat) : Int)", tMachI // uint32 -> int64 cannot wrap
+			}
 			t.fail(x, "integer conversion that may wrap")
 		case "sdk.NewCoin":
 			wantArgs(2)
@@ -379,11 +395,34 @@ func (t *arithTr) expr(e ast.Expr, sc *scope, pre *[]string, noHoist bool) (stri
 			// defined with math/big directly: a primitive (T-division, panics on zero divisor)
 			t.fail(x, "QuoRemInt must be bound with a two-value assignment")
 		}
-		// package-level translated function
+		// package-level translated function (possibly called through the `exchange.` package name)
 		if id, ok := x.Fun.(*ast.Ident); ok {
 			if f, ok := t.fns[id.Name]; ok && len(f.results) == 1 {
 				args := t.callArgs(x, f, nil, sc, pre, noHoist)
 				return bind(x, "«"+id.Name+"» "+args, f.results[0])
+			}
+		}
+		if se, ok := x.Fun.(*ast.SelectorExpr); ok {
+			if pk, ok := se.X.(*ast.Ident); ok && pk.Name == "exchange" {
+				if f, ok := t.fns[se.Sel.Name]; ok && len(f.results) == 1 && f.target.Recv == "" {
+					args := t.callArgs(x, f, nil, sc, pre, noHoist)
+					return bind(x, "«"+se.Sel.Name+"» "+args, f.results[0])
+				}
+			}
+			// opaque keeper look-ups (loop-body mode): an input of the translated function
+			if rcv, ok := se.X.(*ast.Ident); ok && rcv.Name == "k" && t.opaque != nil {
+				if ty, ok := t.opaque[se.Sel.Name]; ok {
+					seen := false
+					for _, u := range t.opaqueUsed {
+						if u == se.Sel.Name {
+							seen = true
+						}
+					}
+					if !seen {
+						t.opaqueUsed = append(t.opaqueUsed, se.Sel.Name)
+					}
+					return leanIdent(se.Sel.Name), ty
+				}
 			}
 		}
 		// methods
@@ -512,6 +551,10 @@ func hasReturn(n ast.Node) bool {
 		if _, ok := x.(*ast.ReturnStmt); ok {
 			found = true
 		}
+		// loop-body mode: `continue` ends the iteration like a return ends the function
+		if b, ok := x.(*ast.BranchStmt); ok && b.Tok == token.CONTINUE {
+			found = true
+		}
 		if _, ok := x.(*ast.FuncLit); ok {
 			return false
 		}
@@ -591,6 +634,22 @@ func (t *arithTr) block(stmts []ast.Stmt, sc *scope, ind string, cont func(sc *s
 		switch s := st.(type) {
 		case *ast.AssignStmt:
 			var pre []string
+			if t.loopAcc != "" && len(s.Lhs) == 1 && len(s.Rhs) == 1 && t.c.src(s.Lhs[0]) == t.loopAcc {
+				// acc = append(acc, e): the iteration's contribution; must end the body
+				call, ok := s.Rhs[0].(*ast.CallExpr)
+				if !ok || t.c.src(call.Fun) != "append" || len(call.Args) != 2 || t.c.src(call.Args[0]) != t.loopAcc {
+					t.fail(s, "the accumulator may only be appended to")
+				}
+				if i != len(stmts)-1 {
+					t.fail(s, "statements after the append of the iteration")
+				}
+				v, ty := t.expr(call.Args[1], sc, &pre, false)
+				if ty != tCoin {
+					t.fail(s, "appended element is not a coin")
+				}
+				emit(pre, "pure (some "+v+")")
+				return out
+			}
 			if len(s.Lhs) == 1 && len(s.Rhs) == 1 {
 				v, ty := t.expr(s.Rhs[0], sc, &pre, false)
 				switch l := s.Lhs[0].(type) {
@@ -638,7 +697,7 @@ func (t *arithTr) block(stmts []ast.Stmt, sc *scope, ind string, cont func(sc *s
 			var rhs string
 			var rtypes []string
 			hasErr := false
-			if t.c.src(call.Fun) == "QuoRemInt" {
+			if fn := t.c.src(call.Fun); fn == "QuoRemInt" || fn == "exchange.QuoRemInt" {
 				if len(call.Args) != 2 {
 					t.fail(s, "QuoRemInt arity")
 				}
@@ -741,6 +800,12 @@ func (t *arithTr) block(stmts []ast.Stmt, sc *scope, ind string, cont func(sc *s
 				t.fail(s, "big.Int operand type %s", et)
 			}
 			emit(pre, fmt.Sprintf("let %s : Int := %s %s %s", leanIdent(recv.Name), leanIdent(recv.Name), op, e))
+		case *ast.BranchStmt:
+			if t.loopAcc != "" && s.Tok == token.CONTINUE && s.Label == nil {
+				out = append(out, ind+"pure none")
+				return out
+			}
+			t.fail(s, "unsupported branch statement")
 		case *ast.DeclStmt:
 			t.fail(s, "declaration statement")
 		case *ast.IfStmt:
@@ -960,6 +1025,111 @@ func (t *arithTr) translate(fd *ast.FuncDecl, tg arithTarget) (code string, err 
 	return sb.String(), nil
 }
 
+// ---- loop bodies ----
+
+type arithLoopTarget struct {
+	Dir, Recv, Name string
+	Acc             string            // accumulator slice the loop appends to
+	Opaque          map[string]string // keeper look-ups treated as inputs: method -> lean type
+}
+
+var arithLoopTargets = []arithLoopTarget{
+	{"x/exchange/keeper", "Keeper", "CalculateExchangeSplit", "exchangeAmt", map[string]string{"GetExchangeSplit": tNat32}},
+}
+
+// packageIntConsts finds package-level `X = sdkmath.NewInt(<literal>)` variables.
+func packageIntConsts(c *Ctx, files map[string]*ast.File) map[string]string {
+	res := map[string]string{}
+	for _, k := range sortedKeys(files) {
+		for _, d := range files[k].Decls {
+			gd, ok := d.(*ast.GenDecl)
+			if !ok || gd.Tok != token.VAR {
+				continue
+			}
+			for _, sp := range gd.Specs {
+				vs := sp.(*ast.ValueSpec)
+				if len(vs.Names) != 1 || len(vs.Values) != 1 {
+					continue
+				}
+				call, ok := vs.Values[0].(*ast.CallExpr)
+				if !ok || len(call.Args) != 1 {
+					continue
+				}
+				if fn := c.src(call.Fun); fn != "sdkmath.NewInt" && fn != "math.NewInt" {
+					continue
+				}
+				if bl, ok := call.Args[0].(*ast.BasicLit); ok && bl.Kind == token.INT {
+					res[vs.Names[0].Name] = strings.ReplaceAll(bl.Value, "_", "")
+				}
+			}
+		}
+	}
+	return res
+}
+
+// translateLoopBody translates the body of the first `for _, x := range <sdk.Coins param>` loop of
+// fd into a function of the loop variable (and of the opaque keeper look-ups it uses) returning
+// `Option GoCoin`: `continue` = none, `acc = append(acc, e)` = some e.
+func (t *arithTr) translateLoopBody(fd *ast.FuncDecl, tg arithLoopTarget, consts map[string]string) (code string, err error) {
+	defer func() {
+		t.loopAcc, t.opaque, t.consts = "", nil, nil
+		if r := recover(); r != nil {
+			if u, ok := r.(untranslatable); ok {
+				err = u
+				return
+			}
+			panic(r)
+		}
+	}()
+	var loop *ast.RangeStmt
+	for _, st := range fd.Body.List {
+		if rs, ok := st.(*ast.RangeStmt); ok {
+			loop = rs
+			break
+		}
+	}
+	if loop == nil {
+		t.fail(fd, "no range loop at the top level of the function body")
+	}
+	val, ok := loop.Value.(*ast.Ident)
+	if !ok || (loop.Key != nil && t.c.src(loop.Key) != "_") {
+		t.fail(loop, "loop must have the form `for _, x := range xs`")
+	}
+	// the ranged expression must be a parameter of type sdk.Coins
+	okParam := false
+	for _, p := range fd.Type.Params.List {
+		if t.c.src(p.Type) == "sdk.Coins" {
+			for _, n := range p.Names {
+				if n.Name == t.c.src(loop.X) {
+					okParam = true
+				}
+			}
+		}
+	}
+	if !okParam {
+		t.fail(loop, "ranged expression is not an sdk.Coins parameter")
+	}
+	sc := &scope{vars: map[string]string{val.Name: tCoin}, nilErr: map[string]bool{}}
+	f := &arithFn{results: []string{"Option GoCoin"}}
+	t.cur, t.tmp = f, 0
+	t.loopAcc, t.opaque, t.opaqueUsed, t.consts = tg.Acc, tg.Opaque, nil, consts
+	body := t.block(loop.Body.List, sc, "  ", func(sc2 *scope, ind string) []string {
+		// falling off the end of the body without an append contributes nothing
+		return []string{ind + "pure none"}
+	})
+	params := []string{fmt.Sprintf("(%s : GoCoin)", leanIdent(val.Name))}
+	for _, o := range t.opaqueUsed {
+		params = append(params, fmt.Sprintf("(%s : %s)", leanIdent(o), leanTypeName(tg.Opaque[o])))
+	}
+	var sb strings.Builder
+	fmt.Fprintf(&sb, "/-- translated from the body of the `for _, %s := range %s` loop of `%s` (%s); inputs: the loop\nvariable and the keeper look-ups %v -/\n", val.Name, t.c.src(loop.X), fd.Name.Name, t.c.Fset.Position(loop.Pos()), t.opaqueUsed)
+	fmt.Fprintf(&sb, "def «%s.body» %s : Except AErr (Option GoCoin) := do\n", fd.Name.Name, strings.Join(params, " "))
+	for _, l := range body {
+		sb.WriteString(l + "\n")
+	}
+	return sb.String(), nil
+}
+
 func emitArith(c *Ctx) (string, error) {
 	t := &arithTr{c: c, fns: map[string]*arithFn{}}
 	var sb strings.Builder
@@ -988,6 +1158,32 @@ func emitArith(c *Ctx) (string, error) {
 			continue
 		}
 		status = append(status, fmt.Sprintf("(%s, %s)", leanStr(tg.Name), leanStr("ok")))
+		sb.WriteString(strings.ReplaceAll(code, c.Repo+"/", "") + "\n")
+	}
+	for _, tg := range arithLoopTargets {
+		files, ok := cache[tg.Dir]
+		if !ok {
+			var err error
+			files, err = c.parseDir(tg.Dir)
+			if err != nil {
+				return "", err
+			}
+			cache[tg.Dir] = files
+		}
+		name := tg.Name + ".body"
+		fd := findFunc(files, tg.Recv, tg.Name)
+		if fd == nil || fd.Body == nil {
+			status = append(status, fmt.Sprintf("(%s, %s)", leanStr(name), leanStr("missing: function not found in "+tg.Dir)))
+			continue
+		}
+		code, err := t.translateLoopBody(fd, tg, packageIntConsts(c, files))
+		if err != nil {
+			msg := strings.TrimPrefix(err.Error(), c.Repo+"/")
+			status = append(status, fmt.Sprintf("(%s, %s)", leanStr(name), leanStr("untranslatable: "+msg)))
+			fmt.Fprintf(&sb, "-- %s: untranslatable: %s\n\n", name, strings.ReplaceAll(msg, "\n", " "))
+			continue
+		}
+		status = append(status, fmt.Sprintf("(%s, %s)", leanStr(name), leanStr("ok")))
 		sb.WriteString(strings.ReplaceAll(code, c.Repo+"/", "") + "\n")
 	}
 	sb.WriteString("/-- translation status per target function -/\ndef status : List (String × String) := [\n  " + strings.Join(status, ",\n  ") + "\n]\n\nend Generated.FeeArith\n")
